@@ -253,8 +253,11 @@ pub fn parse_root_adt<R: Read + Seek>(
     ) {
         if let Some(chunks) = discovery.get_chunks(ChunkId::MTXF) {
             if let Some(chunk_info) = chunks.first() {
-                reader.seek(SeekFrom::Start(chunk_info.offset + 8))?;
-                Some(MtxfChunk::read_le(reader)?)
+                Some(read_bounded_chunk::<MtxfChunk, _>(
+                    reader,
+                    chunk_info.offset,
+                    chunk_info.size,
+                )?)
             } else {
                 None
             }
@@ -285,8 +288,11 @@ pub fn parse_root_adt<R: Read + Seek>(
     let texture_params = if matches!(version, AdtVersion::MoP) {
         if let Some(chunks) = discovery.get_chunks(ChunkId::MTXP) {
             if let Some(chunk_info) = chunks.first() {
-                reader.seek(SeekFrom::Start(chunk_info.offset + 8))?;
-                Some(MtxpChunk::read_le(reader)?)
+                Some(read_bounded_chunk::<MtxpChunk, _>(
+                    reader,
+                    chunk_info.offset,
+                    chunk_info.size,
+                )?)
             } else {
                 None
             }
@@ -301,8 +307,11 @@ pub fn parse_root_adt<R: Read + Seek>(
     let blend_mesh_headers = if matches!(version, AdtVersion::MoP) {
         if let Some(chunks) = discovery.get_chunks(ChunkId::MBMH) {
             if let Some(chunk_info) = chunks.first() {
-                reader.seek(SeekFrom::Start(chunk_info.offset + 8))?;
-                Some(MbmhChunk::read_le(reader)?)
+                Some(read_bounded_chunk::<MbmhChunk, _>(
+                    reader,
+                    chunk_info.offset,
+                    chunk_info.size,
+                )?)
             } else {
                 None
             }
@@ -317,8 +326,11 @@ pub fn parse_root_adt<R: Read + Seek>(
     let blend_mesh_bounds = if matches!(version, AdtVersion::MoP) {
         if let Some(chunks) = discovery.get_chunks(ChunkId::MBBB) {
             if let Some(chunk_info) = chunks.first() {
-                reader.seek(SeekFrom::Start(chunk_info.offset + 8))?;
-                Some(MbbbChunk::read_le(reader)?)
+                Some(read_bounded_chunk::<MbbbChunk, _>(
+                    reader,
+                    chunk_info.offset,
+                    chunk_info.size,
+                )?)
             } else {
                 None
             }
@@ -333,8 +345,11 @@ pub fn parse_root_adt<R: Read + Seek>(
     let blend_mesh_vertices = if matches!(version, AdtVersion::MoP) {
         if let Some(chunks) = discovery.get_chunks(ChunkId::MBNV) {
             if let Some(chunk_info) = chunks.first() {
-                reader.seek(SeekFrom::Start(chunk_info.offset + 8))?;
-                Some(MbnvChunk::read_le(reader)?)
+                Some(read_bounded_chunk::<MbnvChunk, _>(
+                    reader,
+                    chunk_info.offset,
+                    chunk_info.size,
+                )?)
             } else {
                 None
             }
@@ -349,8 +364,11 @@ pub fn parse_root_adt<R: Read + Seek>(
     let blend_mesh_indices = if matches!(version, AdtVersion::MoP) {
         if let Some(chunks) = discovery.get_chunks(ChunkId::MBMI) {
             if let Some(chunk_info) = chunks.first() {
-                reader.seek(SeekFrom::Start(chunk_info.offset + 8))?;
-                Some(MbmiChunk::read_le(reader)?)
+                Some(read_bounded_chunk::<MbmiChunk, _>(
+                    reader,
+                    chunk_info.offset,
+                    chunk_info.size,
+                )?)
             } else {
                 None
             }
@@ -655,6 +673,26 @@ fn parse_mcnk_chunks<R: Read + Seek>(
     log::debug!("Parsed {} MCNK chunks", mcnk_chunks.len());
 
     Ok(mcnk_chunks)
+}
+
+/// Parse a chunk whose payload is a list running to the end of the chunk.
+///
+/// These types read "until end of stream", so they must be given a reader that ends
+/// where the chunk ends; on the whole-file reader they would swallow every chunk that
+/// follows.
+fn read_bounded_chunk<T, R>(reader: &mut R, offset: u64, size: u32) -> Result<T>
+where
+    T: for<'a> BinRead<Args<'a> = ()>,
+    R: Read + Seek,
+{
+    reader.seek(SeekFrom::Start(offset + 8))?; // Skip header
+    let mut chunk_data = Vec::new();
+    reader
+        .by_ref()
+        .take(u64::from(size))
+        .read_to_end(&mut chunk_data)?;
+    let mut cursor = std::io::Cursor::new(chunk_data);
+    Ok(T::read_le(&mut cursor)?)
 }
 
 /// Parse a simple chunk by ID from discovery results.
